@@ -196,26 +196,62 @@ func (c *Ctx) CapRules(ob *core.Obligation, fixedDraw, sendAll, receive *ssa.Fun
 			return
 		}
 		found := false
-		for _, b := range receive.Blocks {
-			if !entry.Dominates(b) {
-				continue
-			}
-			for _, in := range b.Instrs {
-				call, ok := in.(*ssa.Call)
-				if !ok {
+		type region struct {
+			fn    *ssa.Function
+			entry *ssa.BasicBlock
+		}
+		regions := []region{{receive, entry}}
+		// helpers of the package the arm delegates to (not the traversal itself)
+		for i := 0; i < len(regions) && len(regions) < 6; i++ {
+			rg := regions[i]
+			for _, b := range rg.fn.Blocks {
+				if rg.entry != nil && !rg.entry.Dominates(b) {
 					continue
 				}
-				for _, arg := range call.Call.Args {
-					if !isBigPtrStd(arg.Type()) {
+				for _, in := range b.Instrs {
+					call, ok := in.(*ssa.Call)
+					if !ok {
 						continue
 					}
-					a, bb, isMin := c.minCallOperands(arg, minOK)
-					if !isMin {
+					sc := call.Call.StaticCallee()
+					if sc == nil || sc == receive || len(sc.Blocks) == 0 || relOfFn(sc) != relOfFn(receive) || len(clauseEntries(sc, dst)) > 1 {
 						continue
 					}
-					if c.evaluatedFrom(a, receive, "DestinationInorderClause.Cap") || c.evaluatedFrom(bb, receive, "DestinationInorderClause.Cap") {
-						found = true
-						ob.Pass(key, c.P.Pos(call.Pos()), "each clause is handed min(its cap, what is left)")
+					dup := false
+					for _, r2 := range regions {
+						if r2.fn == sc {
+							dup = true
+						}
+					}
+					if !dup {
+						regions = append(regions, region{sc, nil})
+					}
+				}
+			}
+		}
+		for _, rg := range regions {
+			for _, b := range rg.fn.Blocks {
+				if rg.entry != nil && !rg.entry.Dominates(b) {
+					continue
+				}
+				for _, in := range b.Instrs {
+					call, ok := in.(*ssa.Call)
+					if !ok {
+						continue
+					}
+					for _, arg := range call.Call.Args {
+						if !isBigPtrStd(arg.Type()) {
+							continue
+						}
+						a, bb, isMin := c.minCallOperands(arg, minOK)
+						if !isMin {
+							continue
+						}
+						if c.evaluatedFrom(a, rg.fn, "DestinationInorderClause.Cap") || c.evaluatedFrom(bb, rg.fn, "DestinationInorderClause.Cap") {
+							found = true
+							c.Touch(rg.fn)
+							ob.Pass(key, c.P.Pos(call.Pos()), "each clause is handed min(its cap, what is left)")
+						}
 					}
 				}
 			}
@@ -336,6 +372,29 @@ func (c *Ctx) boundedByBalance(v, name ssa.Value, fn *ssa.Function, b *ssa.Basic
 					return ""
 				}
 				return c.boundedByBalance(args[1], name, fn, b, pc, r, minOK, d+1)
+			}
+		}
+		// a helper of the module that computes the amount: every value it returns is judged
+		// in the helper, with the account name mapped to the corresponding parameter
+		if sc := x.Call.StaticCallee(); sc != nil && c.P.InModule(sc) && len(sc.Blocks) > 0 && sc != fn && isBigPtrStd(x.Type()) {
+			var pname ssa.Value
+			for ai, a := range x.Call.Args {
+				if ai < len(sc.Params) && core.Canon(a) == core.Canon(name) {
+					pname = sc.Params[ai]
+				}
+			}
+			if pname != nil {
+				c.Touch(sc)
+				pc2 := core.NewPathConds(sc)
+				for _, ret := range core.Returns(sc) {
+					if len(ret.Results) == 0 {
+						continue
+					}
+					if why := c.boundedByBalance(ret.Results[0], pname, sc, ret.Block(), pc2, r, minOK, d+2); why != "" {
+						return why + " (in " + sc.Name() + ")"
+					}
+				}
+				return ""
 			}
 		}
 		return "amount computed by " + core.ShortVal(x) + ", not bounded by a balance"
@@ -561,7 +620,49 @@ func (c *Ctx) PostingsAppliedToCache(ob *core.Obligation, r *Roles) {
 		key := "apply-postings:" + core.SSAName(fn)
 		var subOK, addOK bool
 		bad := ""
-		for _, ci := range core.Calls(fn) {
+		// the loop over the reconciler's result
+		var head *ssa.BasicBlock
+		for _, b := range fn.Blocks {
+			if iff, ok := b.Instrs[len(b.Instrs)-1].(*ssa.If); ok && isRangeCond(iff.Cond) {
+				bo := iff.Cond.(*ssa.BinOp)
+				if lc, ok := core.Strip(bo.Y).(*ssa.Call); ok && len(lc.Call.Args) == 1 {
+					if ex, ok := lc.Call.Args[0].(*ssa.Extract); ok && ex.Tuple == rec {
+						head = b
+					}
+				}
+			}
+		}
+		// the body may be a helper that is handed the posting, called on every iteration
+		var scan []ssa.CallInstruction
+		scan = append(scan, core.Calls(fn)...)
+		if head != nil {
+			for _, ci := range core.Calls(fn) {
+				sc := ci.Common().StaticCallee()
+				if sc == nil || sc == fn || len(sc.Blocks) == 0 || relOfFn(sc) != "internal/interpreter" {
+					continue
+				}
+				takesPosting := false
+				for _, prm := range sc.Params {
+					if typeShort(derefT(prm.Type())) == "Posting" {
+						takesPosting = true
+					}
+				}
+				// on every iteration: in the loop, and not under any condition other than the loop's own
+				if !takesPosting || !head.Dominates(ci.Block()) || !core.ReachableAvoiding(ci.Block(), head, nil) {
+					continue
+				}
+				if ci.Block() != head.Succs[0] && core.ReachableAvoiding(head.Succs[0], head, map[*ssa.BasicBlock]bool{ci.Block(): true}) {
+					continue
+				}
+				c.Touch(sc)
+				for _, c2 := range core.Calls(sc) {
+					if sc.Blocks[0].Dominates(c2.Block()) && blockOnEveryPath(sc, c2.Block()) {
+						scan = append(scan, c2)
+					}
+				}
+			}
+		}
+		for _, ci := range scan {
 			call, ok := ci.(*ssa.Call)
 			if !ok {
 				continue
@@ -601,17 +702,6 @@ func (c *Ctx) PostingsAppliedToCache(ob *core.Obligation, r *Roles) {
 		}
 		// every success return is dominated by the loop over the reconciler's result
 		loopOK := true
-		var head *ssa.BasicBlock
-		for _, b := range fn.Blocks {
-			if iff, ok := b.Instrs[len(b.Instrs)-1].(*ssa.If); ok && isRangeCond(iff.Cond) {
-				bo := iff.Cond.(*ssa.BinOp)
-				if lc, ok := core.Strip(bo.Y).(*ssa.Call); ok && len(lc.Call.Args) == 1 {
-					if ex, ok := lc.Call.Args[0].(*ssa.Extract); ok && ex.Tuple == rec {
-						head = b
-					}
-				}
-			}
-		}
 		if head == nil {
 			loopOK = false
 		} else {
@@ -638,6 +728,23 @@ func (c *Ctx) PostingsAppliedToCache(ob *core.Obligation, r *Roles) {
 	if n == 0 {
 		ob.Unknown("apply-postings:none", "-", "no function that reconciles and applies postings found")
 	}
+}
+
+// blockOnEveryPath: every path from the entry of fn to a return passes through b.
+func blockOnEveryPath(fn *ssa.Function, b *ssa.BasicBlock) bool {
+	avoid := map[*ssa.BasicBlock]bool{b: true}
+	if b == fn.Blocks[0] {
+		return true
+	}
+	for _, ret := range core.Returns(fn) {
+		if ret.Block() == b {
+			continue
+		}
+		if core.ReachableAvoiding(fn.Blocks[0], ret.Block(), avoid) {
+			return false
+		}
+	}
+	return true
 }
 
 func returnsPostings(fn *ssa.Function) bool {
